@@ -84,6 +84,7 @@ func c16RunShape(v asmVariant, ops []asmOp, split, resume, mode int, slack int, 
 		}
 		return newRealEmitter(v, capacity)
 	}
+	var scratch [][]byte
 	cl := func(p *asm.Emitter) *asm.Emitter {
 		if dry {
 			return p.Clone(nil)
@@ -92,7 +93,18 @@ func c16RunShape(v asmVariant, ops []asmOp, split, resume, mode int, slack int, 
 			t := p.Bytes()
 			return p.Clone(t[len(t):cap(t)])
 		}
-		return p.Clone(make([]byte, roomy))
+		b := make([]byte, roomy)
+		scratch = append(scratch, b)
+		return p.Clone(b)
+	}
+	// a clone's own buffer is the caller's scratch memory: once the clone has been Appended it is cleared
+	// (reused for the next clone); the parent must not have kept anything that lives in it
+	scribble := func() {
+		for _, b := range scratch {
+			for i := range b {
+				b[i] = 0xDB
+			}
+		}
 	}
 	if (dry || inPlace) && (slack != 99 || decoy) {
 		return ""
@@ -242,6 +254,7 @@ func c16RunShape(v asmVariant, ops []asmOp, split, resume, mode int, slack int, 
 			}
 		}
 	}
+	scribble()
 	if df := observeFull(a, v.Listing).diff(observeFull(d, v.Listing)); df != "" {
 		if resume < len(ops) {
 			return fmt.Sprintf("after Append and %d further calls (mode %d) the emitter differs from the direct one: %s", len(ops)-resume, mode, df)
